@@ -188,18 +188,3 @@ pub fn select_all_bounded_wait<const N: usize>(nd: &mut Nd) {
     }
     assert!(served, "C18.waiting_future_served_within_n_rounds");
 }
-
-crate::harnesses! {
-    select_all_contract_n0: 6 => crate::p18::select_all_contract::<0>,
-    select_all_contract_n1: 6 => crate::p18::select_all_contract::<1>,
-    select_all_contract_n2: 6 => crate::p18::select_all_contract::<2>,
-    select_all_contract_n3: 6 => crate::p18::select_all_contract::<3>,
-    select_all_contract_n4: 6 => crate::p18::select_all_contract::<4>,
-    select_all_fair_step_n2: 6 => crate::p18::select_all_fair_step::<2>,
-    select_all_fair_step_n3: 6 => crate::p18::select_all_fair_step::<3>,
-    select_all_fair_step_n4: 6 => crate::p18::select_all_fair_step::<4>,
-    select_all_bounded_wait_n1: 6 => crate::p18::select_all_bounded_wait::<1>,
-    select_all_bounded_wait_n2: 6 => crate::p18::select_all_bounded_wait::<2>,
-    select_all_bounded_wait_n3: 6 => crate::p18::select_all_bounded_wait::<3>,
-    select_all_bounded_wait_n4: 6 => crate::p18::select_all_bounded_wait::<4>,
-}
